@@ -21,6 +21,7 @@ using dbgroup::thread::EpochManager;
 using dbgroup::thread::IDManager;
 
 static int failures = 0;
+extern std::atomic<long> *g_node_counter;
 #define FAIL(...) do { ++failures; std::printf("REPLAY-FAIL: "); std::printf(__VA_ARGS__); std::printf("\n"); } while (0)
 
 static std::atomic<int> stage{0};
@@ -96,6 +97,64 @@ EnterEpochStall()
   return failures ? 1 : 0;
 }
 
+// C02: MCSLock enqueue -- T1 is preempted between its exchange on the lock word and the plain store that records the
+// predecessor flags in its own node; T2 enqueues behind it and writes its link into T1's node; T1's store erases the
+// link: T1's release waits for a link that never comes, T2 waits for a hand-off that never happens.
+static int
+McsLostLink()
+{
+  dbgroup::lock::MCSLock lock{};
+  std::atomic<int> done{0};
+  // T1: store(own node) + exchange(lock word) = 2 ops, then HOLD.  T2: store, exchange, store, fetch_add(link) = 4 ops.
+  vsched::Start({{0, 2, true}, {1, 4, false}});
+  std::thread t1([&] {
+    vsched::Register(0);
+    { auto x = lock.LockX(); }
+    done.fetch_add(1);
+  });
+  std::thread t2([&] {
+    vsched::Register(1);
+    { auto x = lock.LockX(); }
+    done.fetch_add(1);
+  });
+  for (int i = 0; i < 300 && done.load() < 2; ++i) std::this_thread::sleep_for(std::chrono::milliseconds(10));
+  if (done.load() < 2) {
+    FAIL("MCSLock: after T1 was preempted between its exchange and its node store, %d of 2 LockX/unlock pairs never finished (lost hand-off: the successor's link was erased)", 2 - done.load());
+    std::fflush(stdout);
+    std::_Exit(1);
+  }
+  t1.join();
+  t2.join();
+  return 0;
+}
+
+// C12: one queue node leaks per round of "shared holder releases while an exclusive successor waits"
+static std::atomic<long> g_live_nodes{0};
+static int
+McsNodeLeak()
+{
+  const int rounds = 200;
+  {
+    dbgroup::lock::MCSLock lock{};
+    for (int r = 0; r < rounds; ++r) {
+      auto s = lock.LockS();
+      std::atomic<bool> queued{false};
+      std::thread w([&] {
+        queued.store(true);
+        auto x = lock.LockX();  // waits behind the shared group
+      });
+      while (!queued.load()) std::this_thread::yield();
+      std::this_thread::sleep_for(std::chrono::milliseconds(2));  // let the writer enqueue and link
+      s = dbgroup::lock::MCSLock::SGuard{};                        // last shared member releases via the successor path
+      w.join();
+    }
+  }
+  const long live = g_live_nodes.load();
+  std::printf("live queue nodes after %d rounds and after all worker threads exited: %ld\n", rounds, live);
+  if (live > 4) FAIL("MCSLock leaks queue nodes: %ld nodes are still allocated after %d rounds although all guards were released and all worker threads exited", live, rounds);
+  return failures ? 1 : 0;
+}
+
 int
 main(int argc, char **argv)
 {
@@ -104,6 +163,24 @@ main(int argc, char **argv)
   int rc = 3;
   if (sc == "id-exit-order") rc = IdExitOrder();
   if (sc == "enter-epoch-stall") rc = EnterEpochStall();
+  if (sc == "mcs-lost-link") rc = McsLostLink();
+  if (sc == "mcs-node-leak") rc = McsNodeLeak();
   std::fflush(stdout);
   std::_Exit(rc);
+}
+
+// allocation counting for queue nodes (MCSLock objects are 8 bytes, allocated with plain new/delete)
+std::atomic<long> *g_node_counter = nullptr;
+void *operator new(std::size_t n)
+{
+  void *p = std::malloc(n ? n : 1);
+  if (p == nullptr) std::abort();
+  if (n == sizeof(dbgroup::lock::MCSLock)) g_live_nodes.fetch_add(1, std::memory_order_relaxed);
+  return p;
+}
+void operator delete(void *p) noexcept { std::free(p); }
+void operator delete(void *p, std::size_t n) noexcept
+{
+  if (n == sizeof(dbgroup::lock::MCSLock) && p != nullptr) g_live_nodes.fetch_sub(1, std::memory_order_relaxed);
+  std::free(p);
 }
